@@ -31,7 +31,7 @@ FUNCTIONS = [
 ]
 BOUNDS = {
     "values": "n, m: all ints (0..3 for bit operators, where CrossHair forks per bit); s, t: all strings of <= 2 characters; b: both booleans; o: None or any int",
-    "typed programs": "61 helper / comparison / membership programs over a record with ipaddress (v4, v6), ipnetwork, uri, path, string[], bytes, float, command, filesize fields x 2 engines",
+    "typed programs": "76 helper / comparison / membership programs over a record with ipaddress (v4, v6), ipnetwork, uri, path, string[], bytes, float, command, filesize fields x 2 engines",
     "programs": "quick: every predicate with operands of depth <= 1 (spec/grammar.py) + 60 seeded and/or/not combinations, x 2 engines; "
     "thorough: operands of depth <= 2 + 1500 seeded combinations",
 }
@@ -54,7 +54,9 @@ def earlier_records():
     from flow.record import RecordDescriptor
 
     D0 = RecordDescriptor(grammar.RECNAME, [("string", "x1"), ("varint", "x2"), ("string", "b")])
-    return [D0("other-layout", 1, "text-not-bool"), descriptor()(*OTHER)]
+    # ... and one with the same name AND the same field names whose types differ (caches keyed by name and field names go stale)
+    D1 = RecordDescriptor(grammar.RECNAME, [("string", "n"), ("string", "m"), ("varint", "s"), ("varint", "t"), ("string", "b"), ("string", "o")])
+    return [D0("other-layout", 1, "text-not-bool"), D1("en", "em", 11, 12, "bee", "oh"), descriptor()(*OTHER)]
 
 
 def descriptor():
@@ -132,7 +134,7 @@ def diff(expr: str, engine: str, mode: str = "equal", small: bool = False, strle
 
 
 TYPED_FIELDS = [("net.ipaddress", "ip"), ("net.ipnetwork", "net"), ("uri", "u"), ("path", "p"), ("string", "s"), ("varint", "n"), ("string[]", "tags"), ("bytes", "by"), ("float", "f"), ("command", "cmd"),
-                ("net.ipaddress", "ip6"), ("filesize", "fs")]
+                ("net.ipaddress", "ip6"), ("filesize", "fs"), ("string", "w")]
 TYPED_PROGRAMS = [
     "field_equals(r, ['ip'], ['1.2.3.4'])", "field_equals(r, ['ip'], ['1.2.3.4'], nocase=False)", "field_equals(r, ['ip', 's'], ['9.9.9.9', '1.2.3.4'])", "field_equals(r, ['ip'], ['1.2.3.5'])",
     "field_equals(r, ['ip6'], ['::1'])", "field_equals(r, ['ip6'], ['0:0:0:0:0:0:0:1'])", "field_equals(r, ['net'], ['10.0.0.0/8'])", "field_equals(r, ['net', 'ip'], ['10.0.0.0/255.0.0.0'], nocase=False)",
@@ -145,6 +147,12 @@ TYPED_PROGRAMS = [
     "r.u == 'http://x/y'", "r.u == r.s + 'ttp://x/y'", "r.p == '/a/b'", "r.p != '/a/b/'", "'a' in r.tags", "r.s in r.tags", "r.tags == ['a', 'b']", "r.tags + [r.s] == ['a', 'b', 'a']", "r.by == b'x'", "r.f > 1",
     "r.f * 2 == 3", "r.fs == 10", "r.fs + r.n > 10", "r.cmd == 'ls -l'", "r.cmd != r.s", "r.ip in [r.fs, '1.2.3.4']", "r.ip not in ['1.2.3.4']", "r.n in [r.fs, 3]", "any(x == r.ip for x in ['1.2.3.4', r.fs])",
     "all(x in r.net for x in ['10.0.0.1', r.ip])", "any(x in r.net for x in [r.ip, '10.2.3.4'])", "r.u in ['http://x/y'] and r.ip == '1.2.3.4'", "name(r) == 'test/typed' and r.ip6 != r.ip",
+    # word boundaries with and without case folding, needles with upper-case letters, on concrete text
+    "field_contains(r, ['u'], ['HTTP'], word_boundary=True)", "field_contains(r, ['u'], ['HTTP'], nocase=False, word_boundary=True)", "field_contains(r, ['u'], ['X'], word_boundary=True)",
+    "field_contains(r, ['u'], ['tp'], word_boundary=True)", "field_contains(r, ['tags', 'u'], ['Y'], word_boundary=True)", "field_contains(r, ['w'], ['Disk', 'ERROR'], word_boundary=True)",
+    "field_contains(r, ['w'], ['Error'], word_boundary=True)", "field_contains(r, ['w'], ['Error'], nocase=False, word_boundary=True)", "field_contains(r, ['w'], ['rror'], word_boundary=True)",
+    "field_contains(r, ['w'], ['ERROR ON'])", "field_contains(r, ['w', 's'], ['sda'], nocase=False, word_boundary=True)", "field_equals(r, ['w'], ['DISK ERROR ON SDA'])", "field_equals(r, ['w'], ['DISK ERROR ON SDA'], nocase=False)",
+    "field_regex(r, ['w'], 'error')", "field_regex(r, ['w'], 'Error')",
 ]
 
 
@@ -152,7 +160,7 @@ def typed_values(s, n):
     import flow.record.fieldtypes as FT
 
     return {"ip": FT.net.ipaddress("1.2.3.4"), "net": FT.net.ipnetwork("10.0.0.0/8"), "u": FT.uri("http://x/y"), "p": FT.path.from_posix("/a/b"), "s": s, "n": n, "tags": ["a", "b"], "by": b"x", "f": 1.5,
-            "cmd": FT.command.from_posix("ls -l"), "ip6": FT.net.ipaddress("::1"), "fs": FT.filesize(10)}
+            "cmd": FT.command.from_posix("ls -l"), "ip6": FT.net.ipaddress("::1"), "fs": FT.filesize(10), "w": "Disk Error on SDA"}
 
 
 def typed_diff(expr: str, engine: str):
